@@ -120,6 +120,28 @@ func ruleLogShapes(c *eng.Ctx) {
 		exact := exactRel(fn, eng.Load(posF, nil), eng.Bin(token.ADD, eng.Param("offset"), eng.AnyV), eng.LT)
 		c.Check(len(beyond) > 0 && exact, "index read bound", p.Pos(fn.Pos()), "EOF exactly when position < offset + entryWidth", "index.ReadAt's end-of-index test is not `position < offset+entryWidth`: the last entry becomes unreadable or an empty slot is read")
 	}
+	if fn := c.Fn(cl + "(*index).writeAt"); fn != nil {
+		sizeF := p.Field(clPkg, "index", "size")
+		end := eng.Bin(token.ADD, eng.Param("offset"), eng.Len(eng.Param("p")))
+		grow := eng.CmpEdges(fn, end, eng.Load(sizeF, nil), eng.GE)
+		ok := len(grow) > 0 && exactRel(fn, end, eng.Load(sizeF, nil), eng.GE)
+		// no other size test decides the growth
+		if n, all := allCmpExact(fn, eng.AnyV, eng.Load(sizeF, nil), eng.GE); !all || n != 1 {
+			ok = false
+		}
+		// the copy into the mapping is reached either after growing or with the whole write inside the file
+		fits := eng.CmpEdges(fn, end, eng.Load(sizeF, nil), eng.LT)
+		eng.Instrs(fn, func(in ssa.Instruction) {
+			if call, isC := in.(*ssa.Call); isC {
+				if b, isB := call.Call.Value.(*ssa.Builtin); isB && b.Name() == "copy" {
+					if g, _ := eng.GuardedBy(fn, in, append(append([]eng.Edge{}, grow...), fits...)); !g {
+						ok = false
+					}
+				}
+			}
+		})
+		c.Check(ok, "the index is grown whenever a write reaches its end", p.Pos(fn.Pos()), "expand exactly when offset + len(p) >= size", "index.writeAt decides whether to grow the index file from something other than the end of the whole write (offset + len(p)): a multi-entry batch that crosses the end of the pre-allocated index is silently cut off by copy(), the missing entries read as zero and readers started in that range land on the wrong messages")
+	}
 	if fn := c.Fn(cl + "(*segment).findLastEntryIndex"); fn != nil {
 		nRet, ok := allReturns(fn, errNil(1), func(rv []ssa.Value) bool {
 			return eng.Bin(token.SUB, call("sort.Search"), eng.IntConst(1))(rv[0])
